@@ -11,6 +11,7 @@ import Crs.Format
 import Crs.Renumber
 import Crs.Copyright
 import Crs.Update
+import Crs.Assemble
 namespace Crs.Cli
 open Crs Crs.Format
 
@@ -50,15 +51,25 @@ def formatOne (check : Bool) (lint : Bool) (b : Bytes) : Bytes × Bool :=
   | .error _ => (b, false)
   | .ok out => if check then (b, out == b && !lint) else (out, true)
 
-/-- `regex format --all [--check]`: every target is processed; a failure does not stop the walk (D19) -/
+/-- does `Parse(formatOnly)` get through the file? An unsupported flag or an odd replacement list is a
+    `logger.Panic`: the process ends there. -/
+def parseable (b : Bytes) : Bool := ((scanLines b).map trimLeftSpTab).all lineAccepted
+
+/-- `regex format --all [--check]`: every target is processed in walk order; a file that cannot be formatted
+    (unbalanced block) is reported and the walk goes on (D19); a file the parser panics on ends the process: nothing
+    after it is touched. -/
 def formatAll (check : Bool) (lint : Bytes → Bool) : Tree → Outcome
   | [] => ⟨[], true⟩
   | (p, b) :: rest =>
-    let r := formatAll check lint rest
     if isFormatTarget p then
-      let (b', ok) := formatOne check (lint p) b
-      ⟨(p, b') :: r.tree, ok && r.ok⟩
-    else ⟨(p, b) :: r.tree, r.ok⟩
+      if !parseable b then ⟨(p, b) :: rest, false⟩
+      else
+        let r := formatAll check lint rest
+        let (b', ok) := formatOne check (lint p) b
+        ⟨(p, b') :: r.tree, ok && r.ok⟩
+    else
+      let r := formatAll check lint rest
+      ⟨(p, b) :: r.tree, r.ok⟩
 
 /-- one file of `util renumber-tests`: (new contents, success) -/
 def renumberOne (check : Bool) (id b : Bytes) : Bytes × Bool :=
@@ -83,6 +94,125 @@ def copyrightAll (v y : Bytes) : Tree → Outcome
     let r := copyrightAll v y rest
     if isCopyrightTarget p then ⟨(p, Crs.Copyright.updateRules v y b) :: r.tree, r.ok⟩
     else ⟨(p, b) :: r.tree, r.ok⟩
+
+/-! ### regex update / compare: one assembly file, then --all -/
+
+/-- the include and exclude directories as the parser sees them: files directly below them, by base name -/
+def fsOf (t : Tree) : Parser.Fs :=
+  { inc := (t.filter fun pb => hasPrefix b!"regex-assembly/include/" pb.1 && !(pb.1.drop 23).contains '/').map fun pb => (pb.1.drop 23, pb.2),
+    exc := (t.filter fun pb => hasPrefix b!"regex-assembly/exclude/" pb.1 && !(pb.1.drop 23).contains '/').map fun pb => (pb.1.drop 23, pb.2) }
+
+def lookup (p : Bytes) : Tree → Option Bytes
+  | [] => none
+  | (q, b) :: rest => if q == p then some b else lookup p rest
+
+def setFile (p c : Bytes) : Tree → Tree
+  | [] => []
+  | (q, b) :: rest => if q == p then (q, c) :: rest else (q, b) :: setFile p c rest
+
+/-- `filepath.Glob(rules/*-PFX-*)` with exactly one match -/
+def rulesFileOf (t : Tree) (id : Bytes) : Option Bytes :=
+  let key := ['-'] ++ id.take 3 ++ ['-']
+  match t.filter (fun pb => hasPrefix b!"rules/" pb.1 && !(pb.1.drop 6).contains '/' && Update.contains key (pb.1.drop 6)) with
+  | [pb] => some pb.1
+  | _ => none
+
+/-- process-wide state the Go code keeps between runs: the package-level processor stack of the assembler and
+    the stash of the last context -/
+structure Globals where
+  stack : List Asm.Proc := []
+  stash : Asm.Stash := []
+
+/-- one `runAssemble`: a NEW context (empty stash) and `Operator.Run`, which RESETS the processor stack before
+    anything else — whatever the globals were before. Returns the globals it leaves behind. -/
+def runFile (E : Asm.Engine) (cfg : Asm.Config) (o1 o2 : Parser.Ord) (_g : Globals) (fs : Parser.Fs) (input : Bytes) :
+    Globals × Except Fault Bytes :=
+  let r := Asm.generate E fs cfg o1 o2 input
+  -- what is left behind is irrelevant to the next run (it starts by overwriting it); kept abstractly as "dirty"
+  (match Parser.parse fs o1 o2 Parser.defaultFuel [] input with
+   | .error _ => {}
+   | .ok st =>
+     match Asm.runLines E cfg [] [.assemble [] []] (scanLines st.out) with
+     | .error _ => {}
+     | .ok (stash, stack) => { stack := stack, stash := stash }, r)
+
+/-- `processRule`: assemble, find the rules file, splice the operand. `.error` = `logger.Fatal` (nothing written). -/
+def updateRule (E : Asm.Engine) (cfg : Asm.Config) (o1 o2 : Parser.Ord) (g : Globals) (t : Tree) (input id : Bytes) (offset : Nat) :
+    Globals × Except Fault Tree :=
+  let (g', r) := runFile E cfg o1 o2 g (fsOf t) input
+  (g', match r with
+    | .error e => .error e
+    | .ok re =>
+      match rulesFileOf t id with
+      | none => .error .diag
+      | some rp =>
+        match lookup rp t with
+        | none => .error .diag
+        | some rc =>
+          match Update.updateRegex rc id offset re with
+          | .error e => .error e
+          | .ok rc' => .ok (setFile rp rc' t))
+
+/-- how `regex update --all` reads an assembly file name: `none` = not a rule file (skipped),
+    `some none` = chain offset above 255 (the walk fails), `some (some (id, k))` -/
+def ruleOfFileName (name : Bytes) : Option (Option (Bytes × Nat)) :=
+  if !((name.take 6).length == 6 && (name.take 6).all isDigit) then none
+  else
+    match Update.splitChain (name.drop 6) with
+    | (offs, rest') =>
+      if !(rest'.isEmpty || rest' == Update.raExt) then none
+      else
+        match offs with
+        | none => some (some (name.take 6, 0))
+        | some ds => if Update.digitsVal ds > 255 then some none else some (some (name.take 6, Update.digitsVal ds))
+
+/-- `regex update --all`: the assembly files in walk order (`files`: the part of the tree still to visit);
+    the first fatal error ends the run with everything before it already written (D19) -/
+def updateAll (E : Asm.Engine) (cfg : Asm.Config) (o1 o2 : Parser.Ord) : Globals → Tree → List (Bytes × Bytes) → Outcome
+  | _, t, [] => ⟨t, true⟩
+  | g, t, (p, b) :: rest =>
+    if isFormatTarget p then
+      match ruleOfFileName (baseName p) with
+      | none => updateAll E cfg o1 o2 g t rest
+      | some none => ⟨t, false⟩
+      | some (some (id, k)) =>
+        match updateRule E cfg o1 o2 g t b id k with
+        | (_, .error _) => ⟨t, false⟩
+        | (g', .ok t') => updateAll E cfg o1 o2 g' t' rest
+    else updateAll E cfg o1 o2 g t rest
+
+/-! ### single-target commands: stdout, tree, success -/
+
+structure CmdResult where
+  stdout : Bytes
+  tree : Tree
+  ok : Bool
+
+def assemblyPath (fileName : Bytes) : Bytes := b!"regex-assembly/" ++ fileName
+
+/-- `regex generate ARG`: the regex on stdout (`os.Stdout.WriteString`, no newline), or nothing and a non-zero exit status -/
+def generateCmd (E : Asm.Engine) (cfg : Asm.Config) (o1 o2 : Parser.Ord) (t : Tree) (arg : Bytes) : CmdResult :=
+  match Update.parseRuleId arg with
+  | .error _ => ⟨[], t, false⟩
+  | .ok ra =>
+    match lookup (assemblyPath ra.fileName) t with
+    | none => ⟨[], t, false⟩
+    | some b =>
+      match (runFile E cfg o1 o2 {} (fsOf t) b).2 with
+      | .ok re => ⟨re, t, true⟩
+      | .error _ => ⟨[], t, false⟩
+
+/-- `regex update ARG`: the rules file with the operand replaced, or the tree as it was and a non-zero exit status -/
+def updateCmd (E : Asm.Engine) (cfg : Asm.Config) (o1 o2 : Parser.Ord) (t : Tree) (arg : Bytes) : CmdResult :=
+  match Update.parseRuleId arg with
+  | .error _ => ⟨[], t, false⟩
+  | .ok ra =>
+    match lookup (assemblyPath ra.fileName) t with
+    | none => ⟨[], t, false⟩
+    | some b =>
+      match (updateRule E cfg o1 o2 {} t b ra.id ra.chainOffset).2 with
+      | .ok t' => ⟨[], t', true⟩
+      | .error _ => ⟨[], t, false⟩
 
 /-- commands that only inspect: generate, compare, version, completion, and every `--check` (by the definitions above) -/
 def inspect (t : Tree) : Tree := t
